@@ -38,7 +38,7 @@ def run_bash(ctx, cfg, items, par=8):
         f = tempfile.NamedTemporaryFile("w", delete=False, dir=os.path.join(ROOT, "build"), suffix=".c17in", encoding="utf-8")
         try:
             for p, ss in chunk:
-                f.write(p + "\n" + " ".join(ss[1:]) + "\n")
+                f.write(p + "\n" + "\x1f".join(ss[1:]) + "\n")
             f.close()
             rc, out, err = ctx.run(["env", "-i", "LC_ALL=C.UTF-8", "PATH=/usr/bin:/bin", "timeout", "600", "bash", ORACLE, cfg, f.name],
                                    timeout=700, cwd=os.path.join(ROOT, "build"))
@@ -257,9 +257,10 @@ def go_group_end(p, i):
 CLASSES = ("alnum", "alpha", "ascii", "blank", "cntrl", "digit", "graph", "lower", "print", "punct", "space", "upper", "word", "xdigit")
 
 
-def malformed_closed_bracket(p):
-    """the pattern has a CLOSED bracket expression containing a [. [= element, a [: without a valid class name, or a
-    reversed range: the package may report a syntax error for it (the property allows that)."""
+def bracket_items(p):
+    """for every CLOSED bracket expression of p: the list of its items scanned left to right the way bash and
+    Go's regexp both read them: ("class", name) | ("coll", text) | ("char", c) | ("range", lo, hi)."""
+    out = []
     for i in unescaped_positions(p):
         if p[i] != "[":
             continue
@@ -267,17 +268,59 @@ def malformed_closed_bracket(p):
         if e is None:
             continue
         body = p[i + 1:e - 1]
-        for m in re.finditer(r"\[([:.=])", body):
-            if m.group(1) != ":":
-                continue    # collating symbols / equivalence classes are valid in bash: a known finding, not malformed
-            k = body.find(":]", m.end())
-            if k < 0 or body[m.end():k] not in CLASSES:
+        j = 1 if body[:1] in ("!", "^") else 0
+        items = []
+
+        def take(j):
+            # one rune, possibly escaped: (rune, next index)
+            if body[j] == "\\" and j + 1 < len(body):
+                return body[j + 1], j + 2
+            return body[j], j + 1
+        while j < len(body):
+            if body[j] == "[" and j + 1 < len(body) and body[j + 1] in ":.=":
+                k = body.find(body[j + 1] + "]", j + 2)
+                if k >= 0:
+                    items.append(("class" if body[j + 1] == ":" else "coll", body[j + 2:k]))
+                    j = k + 2
+                    continue
+                if body[j + 1] == ":":
+                    items.append(("class", None))     # [: without :]
+                else:
+                    items.append(("coll", None))
+                j += 2
+                continue
+            lo, j = take(j)
+            if j + 1 < len(body) and body[j] == "-":
+                hi, j = take(j + 1)
+                items.append(("range", lo, hi))
+            else:
+                items.append(("char", lo))
+        out.append(items)
+    return out
+
+
+def malformed_closed_bracket(p):
+    """the pattern has a CLOSED bracket expression containing a [: without a valid class name or a reversed range:
+    the package may report a syntax error for it (the property allows that)."""
+    for items in bracket_items(p):
+        for it in items:
+            if it[0] == "class" and it[1] not in CLASSES:
                 return True
-        if re.search(r"(\\?.)-(\\?.)", body, re.S):
-            for m in re.finditer(r"(?:\\(.)|(.))-(?:\\(.)|(.))", body, re.S):
-                lo = m.group(1) or m.group(2)
-                hi = m.group(3) or m.group(4)
-                if hi < lo:
+            if it[0] == "range" and it[2] < it[1]:
+                return True
+    return False
+
+
+def nocase_range_crosses_case_blocks(p):
+    """a range containing letters whose end points are not both lower-case or both upper-case letters: Go's (?i)
+    closes it under folding, bash folds the end points and the tested character instead"""
+    for items in bracket_items(p):
+        for it in items:
+            if it[0] == "range" and it[1] <= it[2]:
+                lo, hi = it[1], it[2]
+                same = (lo.islower() and hi.islower() and lo.isascii() and hi.isascii()) or (lo.isupper() and hi.isupper() and lo.isascii() and hi.isascii())
+                has_letter = any(chr(c).isalpha() for c in range(max(ord(lo), 65), min(ord(hi), 122) + 1))
+                if has_letter and not same:
                     return True
     return False
 
@@ -304,6 +347,10 @@ def classify(p, cfg, go, bash_bits):
                 return None, None      # a syntax error for a malformed pattern: allowed by the property
         return "error_on_valid_pattern", None
     # no error: the language differs
+    if any(ord(c) > 127 for c in p) and any(it[0] == "class" and it[1] in CLASSES for items in bracket_items(p) for it in items):
+        return "language_differs", "named_classes_are_ascii_only"
+    if cfg == "fold" and nocase_range_crosses_case_blocks(p):
+        return "language_differs", "nocase_range_crossing_case_blocks"
     if cfg == "fold" and ("[:upper:]" in p or "[:lower:]" in p):
         return "language_differs", "nocase_folds_upper_lower_classes"
     if has_unclosed_bracket_ending_in_dash(p):
@@ -469,19 +516,35 @@ def run(ctx):
     quick = ctx.tier == "quick"
     ctx.rule = ("search: every pattern of length <= 2 over the 18-rune alphabet * ? [ ] ! ^ - \\ / . a b : ( | ) @ +, "
                 "the (seed mod 8)-th eighth of length 3 (thorough: all of length <= 4) and a pinned list of token patterns "
-                "(classes, ranges, extglob groups; seed rotates an eighth, thorough all), each against every string of length <= 3 "
+                "(classes, ranges, extglob groups, every regexp-special rune as a literal; seed rotates an eighth, thorough all), "
+                "an enumeration of bracket expressions ([, optional ! or ^, up to 2 (thorough 3) elements from - a c Z 9 . space ^ ! ] $ \\] \\- \\a [ [:digit:] /, "
+                "], optional tail), [[:name:]] for every valid class name, every substring and misspelling of one, and the "
+                "literal forms c, \\c, QuoteMeta(c) of every ASCII rune; each against every string of length <= 3 "
                 "over the pattern's first 4 distinct runes + 'a' (+ upper case for nocasematch), in three configurations "
                 "(extglob matcher vs [[ ]], plain Regexp vs case with extglob off, NoGlobCase vs nocasematch); "
                 "non-trivial = distinct (pattern, config) whose pattern has * ? [ or (")
-    code_leg(ctx, binp, 60 if quick else 1500)
+    code_leg(ctx, binp, 40 if quick else 1500)
     # ---- search
     rc, rows, err = ctx.jsonl([binp, "enum", "-n", "3" if quick else "4", "-seed", str(ctx.seed), "-tier", ctx.tier], timeout=1800)
     rc2, trows, err2 = ctx.jsonl([binp, "tokens", "-n", "4000", "-seed", str(ctx.seed), "-tier", ctx.tier], timeout=1800)
     rc3, wrows, err3 = ctx.jsonl([binp, "list", "--"] + WITNESSES, timeout=600)
-    if rc != 0 or rc2 != 0 or rc3 != 0 or not rows:
-        ctx.broken.append(("harness-run", "c17 enum/tokens failed %s" % (err + err2 + err3)[-600:]))
+    rc4, brows, err4 = ctx.jsonl([binp, "brackets", "-seed", str(ctx.seed), "-tier", ctx.tier], timeout=1800)
+    rc5, srows, err5 = ctx.jsonl([binp, "sweep"], timeout=600)
+    if rc != 0 or rc2 != 0 or rc3 != 0 or rc4 != 0 or rc5 != 0 or not rows or not brows:
+        ctx.broken.append(("harness-run", "c17 enum/tokens/brackets/sweep failed %s" % (err + err2 + err3 + err4 + err5)[-600:]))
         return
-    allrows = wrows + rows + trows
+    # ---- literal sweep: every ASCII rune (and some multi-byte) as c, \c, QuoteMeta(c), embedded; all 128 modes; law tested in Go
+    nsweep = 0
+    for r in srows:
+        if "summary" in r:
+            nsweep = r["summary"]["cases"]
+        else:
+            ctx.fail(r["clause"], {"pattern": unhex(r["p"]), "mode": r["m"]}, None, r.get("detail"))
+    ctx.count(nsweep)
+    ctx.extra["literal_sweep_cases"] = nsweep
+    if not nsweep:
+        ctx.broken.append(("harness-run", "literal sweep produced no summary"))
+    allrows = wrows + rows + trows + brows
     spec_cases, nfail = search(ctx, allrows, 10 if quick else 40)
     ctx.extra["search_patterns"] = len(allrows)
     ctx.extra["search_disagreements_all_classified"] = nfail
